@@ -73,6 +73,12 @@ func LoadProgram(goos, goarch string, allBodies bool) (*Program, error) {
 		Tests: false,
 	}
 	if norm != nil && norm.Overlay != nil {
+		if d := os.Getenv("VERIF_DUMP_OVERLAY"); d != "" {
+			os.MkdirAll(d, 0o755)
+			for name, content := range norm.Overlay {
+				os.WriteFile(filepath.Join(d, strings.ReplaceAll(strings.TrimPrefix(name, "/"), "/", "_")), content, 0o644)
+			}
+		}
 		cfg.Overlay = norm.Overlay
 	}
 	pkgs, err := packages.Load(cfg, "./...")
